@@ -43,7 +43,7 @@ def make_view(inner: Any) -> Any:
     base = type(inner)
     while getattr(base, "_verif_view", False):
         base = base.__mro__[1]
-    ctl: dict[str, Any] = {"dead": False, "hook": None, "count": {}}
+    ctl: dict[str, Any] = {"dead": False, "hook": None, "count": {}, "log": {}}
 
     def wrap(name: str) -> Callable[..., Any]:
         orig = getattr(base, name)
@@ -55,6 +55,9 @@ def make_view(inner: Any) -> Any:
             if name == "append_tick":
                 rid = a[0] if a else kw.get("run_id")
                 ctl["count"][rid] = ctl["count"].get(rid, 0) + 1
+                # what was handed to the store, kept outside the store: the reference every read of the log is compared with
+                td = a[1] if len(a) > 1 else kw.get("tick_data")
+                ctl["log"].setdefault(rid, []).append(json.loads(json.dumps(td)))
                 hook = ctl["hook"]
                 if hook is not None:
                     hook(rid, ctl["count"][rid])
@@ -78,11 +81,19 @@ def kill(view: Any) -> None:
     type(view)._verif_ctl["dead"] = True
 
 
-def set_tick_hook(view: Any, hook: Callable[[str, int], None] | None, counts: dict[str, int] | None = None) -> None:
+def set_tick_hook(view: Any, hook: Callable[[str, int], None] | None, counts: dict[str, int] | None = None,
+                  log: dict[str, list] | None = None) -> None:
     ctl = type(view)._verif_ctl
     ctl["hook"] = hook
     if counts is not None:
         ctl["count"] = dict(counts)
+    if log is not None:
+        ctl["log"] = {k: list(v) for k, v in log.items()}
+
+
+def appended_log(view: Any, run_id: str) -> list:
+    """the tick_data of every `append_tick(run_id, …)` that returned, in call order, over all incarnations so far"""
+    return list(type(view)._verif_ctl["log"].get(run_id, []))
 
 
 # --------------------------------------------------------------------------
@@ -171,7 +182,10 @@ class CaseResult:
     status: str | None = None
     result: Any = None
     error: str | None = None
-    ticks: list = field(default_factory=list)
+    ticks: list = field(default_factory=list)  # the persisted log = what append_tick was given (validated), NOT a read of the store
+    appended_data: list = field(default_factory=list)  # the raw tick_data of `ticks`
+    streamed: list = field(default_factory=list)  # StoredTick rows of store.stream_ticks(run_id) at the end
+    listed: list = field(default_factory=list)  # StoredTick rows of store.get_ticks(run_id) at the end
     events: list = field(default_factory=list)
     store: Any = None
     trace: Any = None
@@ -319,8 +333,9 @@ def run_crash_case(spec: dict, seed: int, kind: str = "memory", crash_at: list[i
             ph.vtime_end = loop.time()
             state["tasks"] = []
             # a new process over the same store
+            old_log = type(view)._verif_ctl["log"]
             view = make_view(inner)
-            set_tick_hook(view, _note_append, counts)
+            set_tick_hook(view, _note_append, counts, old_log)
             counts = type(view)._verif_ctl["count"]
             st = Stack.build(kind, idle_timeout=idle_timeout, store=view, db_path=db_path)
             for name in cur_st.factories:
@@ -354,7 +369,18 @@ def run_crash_case(spec: dict, seed: int, kind: str = "memory", crash_at: list[i
         h = await inner.query(_hq(rid))
         if h:
             res.status, res.result, res.error = h[0].status, h[0].result, h[0].error
-        res.ticks = await st.ticks(rid)
+        from workflows.runtime.types.ticks import WorkflowTickAdapter
+
+        res.appended_data = appended_log(view, rid)
+        res.ticks = [WorkflowTickAdapter.validate_python(copy.deepcopy(td)) for td in res.appended_data]
+        try:
+            res.streamed = [t async for t in inner.stream_ticks(rid)]
+        except Exception as e:
+            res.streamed = [f"<raised {type(e).__name__}: {e}>"]
+        try:
+            res.listed = list(await inner.get_ticks(rid))
+        except Exception as e:
+            res.listed = [f"<raised {type(e).__name__}: {e}>"]
         try:
             res.events = await inner.query_events(rid)
         except Exception as e:  # pragma: no cover
